@@ -56,9 +56,9 @@ def fill_map(o):
 class V3(object):
     """symbolic CVSS3 pre-states and the specification values derived from them"""
 
-    def __init__(self, ctx, prefix="o"):
+    def __init__(self, ctx, prefix="o", omap=None):
         self.ctx = ctx
-        self.o = build_map(ctx, prefix, v3.VALUES, v3.BASE)
+        self.o = build_map(ctx, prefix, v3.VALUES, v3.BASE) if omap is None else omap(ctx, v3.VALUES)
         self.minor = fv_int_var(ctx, prefix + ".minor", [0, 1])
         # effective (filled) values as finite choices
         e = {}
@@ -79,29 +79,29 @@ class V3(object):
         e = self.e
         s, ms = e["S"], e["MS"]
         if name == "iss":
-            r = lift(v3.iss, e["C"], e["I"], e["A"])
+            r = lift(v3.iss, e["C"], e["I"], e["A"], memo=("v3", name))
         elif name == "impact":
-            r = lift(v3.impact, s, self.spec("iss"))
+            r = lift(v3.impact, s, self.spec("iss"), memo=("v3", name))
         elif name == "expl":
-            r = lift(v3.exploitability, e["AV"], e["AC"], e["PR"], e["UI"], s)
+            r = lift(v3.exploitability, e["AV"], e["AC"], e["PR"], e["UI"], s, memo=("v3", name))
         elif name == "base":
-            r = lift(v3.base_score, s, self.spec("impact"), self.spec("expl"))
+            r = lift(v3.base_score, s, self.spec("impact"), self.spec("expl"), memo=("v3", name))
         elif name == "tf":
-            r = lift(v3.temporal_factor, e["E"], e["RL"], e["RC"])
+            r = lift(v3.temporal_factor, e["E"], e["RL"], e["RC"], memo=("v3", name))
         elif name == "temporal":
-            r = lift(v3.temporal_score, self.spec("base"), self.spec("tf"))
+            r = lift(v3.temporal_score, self.spec("base"), self.spec("tf"), memo=("v3", name))
         elif name == "miss":
-            r = lift(v3.miss, e["MC"], e["MI"], e["MA"], e["CR"], e["IR"], e["AR"])
+            r = lift(v3.miss, e["MC"], e["MI"], e["MA"], e["CR"], e["IR"], e["AR"], memo=("v3", name))
         elif name == "mimpact":
-            r = lift(v3.modified_impact, self.minor, ms, self.spec("miss"))
+            r = lift(v3.modified_impact, self.minor, ms, self.spec("miss"), memo=("v3", name))
         elif name == "mimpact30":
-            r = lift(lambda a, b: v3.modified_impact(0, a, b), ms, self.spec("miss"))
+            r = lift(lambda a, b: v3.modified_impact(0, a, b), ms, self.spec("miss"), memo=("v3", name))
         elif name == "mimpact31":
-            r = lift(lambda a, b: v3.modified_impact(1, a, b), ms, self.spec("miss"))
+            r = lift(lambda a, b: v3.modified_impact(1, a, b), ms, self.spec("miss"), memo=("v3", name))
         elif name == "mexpl":
-            r = lift(v3.exploitability, e["MAV"], e["MAC"], e["MPR"], e["MUI"], ms)
+            r = lift(v3.exploitability, e["MAV"], e["MAC"], e["MPR"], e["MUI"], ms, memo=("v3", name))
         elif name == "mbase":
-            r = lift(v3.modified_base, ms, self.spec("mimpact"), self.spec("mexpl"))
+            r = lift(v3.modified_base, ms, self.spec("mimpact"), self.spec("mexpl"), memo=("v3", name))
         elif name == "impact_enc":
             r = lift(lambda sc, x: Enc(v3.impact(sc, x), scale=8) if sc == "U" else Enc(v3.impact(sc, x), err=ISC_ERR),
                      s, self.spec("iss"))
@@ -112,7 +112,7 @@ class V3(object):
             r = lift(lambda m_, sc, x: Enc(v3.modified_impact(m_, sc, x), scale=14) if sc == "U"
                      else Enc(v3.modified_impact(m_, sc, x), err=ISC_ERR), mn, ms, self.spec("miss"))
         elif name == "env":
-            r = lift(v3.environmental_score, self.spec("mbase"), self.spec("tf"))
+            r = lift(v3.environmental_score, self.spec("mbase"), self.spec("tf"), memo=("v3", name))
         else:
             raise KeyError(name)
         self._spec[name] = r
